@@ -219,6 +219,15 @@ func (l *lockedRand) Read(p []byte) (int, error) {
 func newRig(model *sm.Model, init sm.State, rng *vk.Rand) *rig {
 	g := &rig{model: model, rec: &recorder{}, lower: model.Cfg.LowerIDs}
 	opts := append(model.ResourceOptions(), resource.WithClock(&clock{frozen: rng.Bool()}), resource.WithRNG(&lockedRand{r: rng.Fork()}))
+	if rng.Chance(1, 3) {
+		// an equivalence for subscribers (here a coarse one: only default_int32 counts) says which changes are worth
+		// telling them about; it has no say in whether two writers conflict
+		opts = append(opts, resource.WithEquivalence(resource.ComparerFunc(func(x, y proto.Message) bool {
+			a, _ := x.(*tat)
+			b, _ := y.(*tat)
+			return a != nil && b != nil && a.DefaultInt32 == b.DefaultInt32
+		})))
+	}
 	if model.Cfg.IsValue {
 		if it, ok := init[""]; ok {
 			opts = append(opts, resource.WithInitialValue(proto.Clone(it.Msg)))
@@ -577,31 +586,37 @@ func forcedPublish(r *vk.Run) {
 func forcedValue(r *vk.Run) {
 	sched := vk.NewSched()
 	defer sched.Close()
-	delta := sm.Opts{Before: true, HasUpdateMask: true, UpdateMask: []string{"default_int64"}}
 	type wr struct {
 		name string
-		mk   func(g *rig, proc int) sm.Op
+		mk   func(g *rig, proc int, restricted bool) sm.Op
 	}
 	ws := []wr{
-		{"delta", func(g *rig, proc int) sm.Op { return sm.Op{Kind: sm.Set, Val: &tat{DefaultInt64: int64(3 + 4*proc)}, Opts: delta} }},
-		{"replace", func(g *rig, proc int) sm.Op { return sm.Op{Kind: sm.Set, Val: g.val3(proc, 1)} }},
-		{"check", func(g *rig, proc int) sm.Op { return sm.Op{Kind: sm.Set, Val: g.val3(proc, 0), Opts: sm.Opts{ExpectCheck: true}} }},
+		{"delta", func(g *rig, proc int, restricted bool) sm.Op {
+			// on a Value with writable fields the counter is not one of them: the increment asks for all fields
+			return sm.Op{Kind: sm.Set, Val: &tat{DefaultInt64: int64(3 + 4*proc)}, Opts: sm.Opts{Before: true, HasUpdateMask: true, UpdateMask: []string{"default_int64"}, AllWritable: restricted}}
+		}},
+		{"replace", func(g *rig, proc int, _ bool) sm.Op { return sm.Op{Kind: sm.Set, Val: g.val3(proc, 1)} }},
+		{"check", func(g *rig, proc int, _ bool) sm.Op { return sm.Op{Kind: sm.Set, Val: g.val3(proc, 0), Opts: sm.Opts{ExpectCheck: true}} }},
 	}
 	idx := 0
 	for _, window := range []string{"gau.afterRead", "gau.beforeLock"} {
-		for _, preset := range []bool{false, true} {
+		for _, pre := range []string{"unset", "set", "set+writable-fields"} {
 			for _, a := range ws {
 				for _, b := range ws {
 					idx++
 					if !r.Mine(idx) {
 						continue
 					}
-					model := &sm.Model{Cfg: sm.Config{IsValue: true, NilWritable: true}, Type: info()}
+					restricted := pre == "set+writable-fields"
+					cfg := sm.Config{IsValue: true, NilWritable: true}
+					if restricted {
+						// a plain Set only rewrites these fields, everything else is carried over from what it read
+						cfg = sm.Config{IsValue: true, Writable: []string{"default_string", "default_int32"}}
+					}
+					model := &sm.Model{Cfg: cfg, Type: info()}
 					init := sm.State{}
-					pre := "unset"
-					if preset {
+					if pre != "unset" {
 						init[""] = sm.Item{Msg: &tat{DefaultString: "init", DefaultInt32: 1, DefaultInt64: 100}}
-						pre = "set"
 					}
 					g := newRig(model, init, r.Rand("forced-value"))
 					key := fmt.Sprintf("value/%s@%s/%s/%s", a.name, window, b.name, pre)
@@ -609,7 +624,7 @@ func forcedValue(r *vk.Run) {
 						continue
 					}
 					pa := sched.ParkAt(window, nil)
-					ta := vk.Go(func() { g.do(0, a.mk(g, 0)) })
+					ta := vk.Go(func() { g.do(0, a.mk(g, 0, restricted)) })
 					if !waitArrived(pa, ta) {
 						r.Count("forced-window-not-reached", 1)
 						r.Distinct("unreached:" + key)
@@ -617,7 +632,7 @@ func forcedValue(r *vk.Run) {
 						ta.Wait()
 						continue
 					}
-					g.do(1, b.mk(g, 1))
+					g.do(1, b.mk(g, 1, restricted))
 					pa.Release()
 					ta.Wait()
 					g.do(9, sm.Op{Kind: sm.Get})
